@@ -84,6 +84,10 @@ def _assume_inv(it, spec, fr):
 
 
 def _havoc(it, s, fr, spec):
+    for n, ty in spec.types.items():
+        if n.startswith("ghost_"):
+            from . import verify
+            it.ctx.ghost[n] = verify.make_param(it.ctx, n, ty, [])
     for n in assigned_names(s.body):
         if n in fr.locals:
             fr.locals[n] = fresh_like(it, n, fr.locals[n], spec.types.get(n))
